@@ -12,6 +12,7 @@ META = {
     "level": "Decides the structural clauses: the slot string is recorded whole; the recorded atom is rebuilt from the key (and slot unless '0'), never the raw request; add/remove is applied exactly once per request; pmerge flushes after every add and after every successful remove, and no membership pre-check on the raw atom can skip recording; the file is replaced through AtomicWriteFile with close() on the success path only; output is one atom per line, sorted. Does NOT decide: preservation of '@set' references and comments in a pre-existing world file (they are dropped by design, with a logged warning).",
     "note": "",
 }
+META["technique"] += "; " + 'generic pack G on the anchored files (optional-flag shift, closures outliving a loop iteration, single-pass iterables consumed twice, %-templates built from data, in-place writes to class-level / memoised objects, generators mutating what they yielded, memo keys that are projections)'
 MOD = "pkgcore.pkgsets.filelist"
 
 
